@@ -19,3 +19,6 @@ def run(ctx):
         return lambda: sample_world(ctx).roles[k]
     restate_f64_primitives(ctx, [lambda: ctx.roles.decompose(), kernel("momenta"), kernel("shift"), kernel("uvec"), kernel("vpoly"), kernel("lmatrix")],
                            "the momentum map, the shift, u, V, L and the decomposition")
+    # the signature (and table) these formulas read are the ones the caller handed to build_sampler (restated from C05-b)
+    from .restate import restate_sampler_is_callers
+    restate_sampler_is_callers(ctx)
